@@ -375,7 +375,7 @@ def check_monitor(ctx, R="C11.monitor"):
         if not muts or mname in SETUP_TIME:
             continue
         n_mut += 1
-        mon = [n for n in walk_local(fn) if isinstance(n, ast.Call) and isinstance(n.func, ast.Attribute) and n.func.attr == "append" and unparse(n.func.value) == "self._requirementMonitors" and "toMonitor()" in unparse(n)]
+        mon = [n for n in walk_local(fn) if isinstance(n, ast.Call) and isinstance(n.func, ast.Attribute) and n.func.attr == "append" and unparse(n.func.value) == "self._requirementMonitors" and n.args and "toMonitor()" in lib.role_text(fn, n.args[0])]
         if mon:
             ctx.ok(R, fn, f"DynamicScenario.{mname}: a requirement added at run time also gets a monitor")
         else:
